@@ -49,6 +49,10 @@ def plan(tier):
 
 def gen_history(rng):
     nrows = rng.choice([1, 1, 2, 3, 4, 5, 6, 8, 10])
+    big = rng.random() < 0.004
+    if big:
+        # scale outlier: a scaffold (and a lookup result) of more than a thousand rows
+        nrows = rng.randint(1050, 1300)
     rows = []
     contig_pos = {}
     for _ in range(nrows):
@@ -56,7 +60,7 @@ def gen_history(rng):
         if r < 0.32:
             rows.append(["G", rng.choice([1, 1, 2, 5, 10, 30, 100]), rng.choice(["scaffold", "contig"])])
         else:
-            name = "c%d" % rng.randint(1, 3)
+            name = "c%d" % rng.randint(1, 3 if not big else 400)
             L = rng.choice([1, 1, 2, 3, 5, 8, 13, 21, 40, 100])
             s = contig_pos.get(name, 0) + rng.choice([1, 1, 2, 10])
             contig_pos[name] = s + L - 1
@@ -75,7 +79,7 @@ def gen_history(rng):
     total = sum((r[1] if r[0] == "G" else r[3] - r[2] + 1) for r in rows)
     a = rng.randint(1, total)
     b = rng.choice([a, rng.randint(a, total), rng.randint(a, total + 20), total])
-    if rng.random() < 0.15:
+    if rng.random() < 0.15 or (big and rng.random() < 0.8):
         a, b = 1, total
     bait = [a, b, rng.choice([1, 1, -1, 0]), list(rng.choice(_TAGSETS))]
     ops = []
@@ -89,7 +93,12 @@ def gen_history(rng):
             ops.append(["trim_large_overhangs", rng.choice([1, 2, 3, 5, 8, 20, 60, b - a + 1, b - a + 2])])
         else:
             ops.append(["trim_fragment", rng.choice(["first", "last"]), rng.random() < 0.3, rng.random() < 0.3])
-    return {"rows": rows, "bait": bait, "ops": ops, "via_add_row": rng.random() < 0.4, "decoy": rng.random() < 0.35}
+    hist = {"rows": rows, "bait": bait, "ops": ops, "via_add_row": rng.random() < 0.4, "decoy": rng.random() < 0.35}
+    if rng.random() < 0.12 and len(rows) > 1:
+        # the scaffold holds only its first k rows when the assembly indexes it and
+        # gains the others afterwards; whatever a lookup then returns must be consistent
+        hist["late_rows"] = rng.randint(1, len(rows) - 1)
+    return hist
 
 
 # ---------------------------------------------------------------------------
@@ -345,13 +354,19 @@ def build(hist):
             rows.append(Gap(r[1], r[2]))
         else:
             rows.append(Fragment(r[1], r[2], r[3], r[4]))
-    if hist.get("via_add_row"):
+    late = hist.get("late_rows")
+    if late:
+        sc = Scaffold("scf", rows[:late])
+    elif hist.get("via_add_row"):
         sc = Scaffold("scf")
         for r in rows:
             sc.add_row(r)
     else:
         sc = Scaffold("scf", rows)
     ia = IndexedAssembly("asm", scaffolds=[sc])
+    if late:
+        for r in rows[late:]:
+            sc.add_row(r)
     if hist.get("decoy"):
         # an unrelated scaffold built afterwards from the same kinds of rows (as a
         # parser would, row by row): it must not disturb the indexed one
